@@ -387,3 +387,5 @@ def summarize(results, tier):
         "samples": samples[:5],
         "exhaustive": True,
     }
+
+RULE += ' Session 4: a body inside a coalesce member abandoned for a missing option must not run unless it is branch-choosing or needed elsewhere; implementation members that are bind / switch / case over option-free datasets in the construction sequences.'
